@@ -1020,6 +1020,7 @@ func init() {
 		},
 	}})
 	register(&Property{ID: "C04", Streams: []*Stream{
+		rerunStream,
 		{
 			Name: "regenerate-alone", Quick: 60, Thorough: 500, New: func() Case { return &aloneCase{} },
 			Gen:      genAloneImports,
